@@ -463,3 +463,71 @@ promised_continuity = REG.add(Contract(
                                   "startswith", _V, _V, _z3.BoolSort())(a.self.run_id, __import__("pyvc.engine", fromlist=["strv"]).strv("_")))), r))],
     raises={},
 ))
+
+
+# --------------------------------------------------------------------------------------
+# Chunk.concatenate (two chunks of one run): spans both, rows of the first followed by the rows of the second
+# --------------------------------------------------------------------------------------
+from pyvc.contract import make_symbolic as _mk  # noqa: E402
+from pyvc.engine import St as _St, Exc as _Exc  # noqa: E402
+
+
+def _np_concatenate(eng, args, kw, st, fr, k, node):
+    """np.concatenate([a, b]) of two structured arrays of one dtype (library model): a new array, rows of a then rows of b"""
+    parts = args[0]
+    if not (isinstance(parts, list) and len(parts) == 2):
+        raise Unsupported("np.concatenate of other than two arrays")
+    a, b = parts
+    res, st = _mk(eng, eng.new_base("concatenated"), INTERVALS, st, set())
+    S = eng.S
+    rv, av, bv = eng.resolve(res, st.heap), eng.resolve(a, st.heap), eng.resolve(b, st.heap)
+    eng.assumptions.add("library model: np.concatenate([a, b]) of equally typed arrays holds the rows of a followed by the rows of b and has their dtype")
+    st = st.assume(S.b(rv.n == av.n + bv.n))
+    for f in ("time", "endtime"):
+        st = st.assume(S.b(S.forall(0, av.n, lambda j: rv.f(f, j) == av.f(f, j))))
+        st = st.assume(S.b(S.forall(0, bv.n, lambda j: rv.f(f, av.n + j) == bv.f(f, j))))
+    st = st.assume(S.b(S.eq(S.arr_dtype(rv), S.arr_dtype(av))))
+    g = dict(st.ghost)
+    g["py:cat"] = res
+    return k(res, _St(st.env, st.heap, st.pc, g))
+
+
+def _merge_ann(eng, args, kw, st, fr, k, node):
+    fr.on_raise(_Exc("ValueError:runs"), st)
+    return k(Opq(eng.fresh("merged_annotation", "V")), st)
+
+
+def _cc2_requires(S, a):
+    c0, c1 = a.chunks
+    return chunk_wf(S, c0) + chunk_wf(S, c1) + [
+        ("both chunks have the same dtype, data type and kind (they belong to one data type)",
+         S.And(S.eq(c0.dtype, c1.dtype), S.eq(c0.data_type, c1.data_type), S.eq(c0.data_kind, c1.data_kind))),
+        ("chunks of one run", S.And(S.eq(c0.run_id, c1.run_id), S.Not(S.is_none(c0.run_id))))]
+
+
+def _cc2_ens(S, a, r):
+    c0, c1 = a.chunks
+    return [("the result spans both chunks", S.And(r.start == c0.start, r.end == c1.end)),
+            ("it holds the rows of the first chunk followed by the rows of the second, unchanged",
+             S.And(r.data.n == c0.data.n + c1.data.n,
+                   S.forall(0, c0.data.n, lambda j: S.And(r.data.f("time", j) == c0.data.f("time", j), r.data.f("endtime", j) == c0.data.f("endtime", j))),
+                   S.forall(0, c1.data.n, lambda j: S.And(r.data.f("time", c0.data.n + j) == c1.data.f("time", j),
+                                                          r.data.f("endtime", c0.data.n + j) == c1.data.f("endtime", j))))),
+            ("data type, kind and run id are those of the parts", S.And(S.eq(r.data_type, c0.data_type), S.eq(r.data_kind, c0.data_kind),
+                                                                         S.eq(r.run_id, c0.run_id))),
+            ("only chunks in time order are joined", c0.end <= c1.start)]
+
+
+concatenate2 = REG.add(Contract(
+    F, "Chunk.concatenate", variant="two chunks of one run",
+    params=dict(cls="V", chunks=(CHUNK, CHUNK), allow_superrun="V"),
+    requires=_cc2_requires,
+    ensures=_cc2_ens,
+    raises={"ValueError": lambda S, a: a.chunks[1].start < a.chunks[0].end, "ValueError:runs": lambda S, a: S.true},
+    calls={"cls": chunk_init_rows, "np.concatenate": _np_concatenate, "_merge_superrun_in_chunk": _merge_ann,
+           "_merge_subruns_in_chunk": _merge_ann, "warn": Abstract(sort=None), "max": Abstract(pure=True)},
+    static=True,
+    expected_dead=[("raise ValueError", "Need at least one chunk to concatenate"),
+                   ("raise ValueError", "Cannot concatenate chunks of different data types"),
+                   ("raise ValueError", "chunks with different run ids")],
+))
